@@ -99,6 +99,8 @@ pub struct ConnIo {
     pub bytes_in: u64,
     pub bytes_out: u64,
     pub eof_pending: bool,
+    /// every byte accepted by write (only kept when `Shared::keep_tx` is set)
+    pub tx_log: Vec<u8>,
 }
 
 pub struct Shared {
@@ -116,6 +118,9 @@ pub struct Shared {
     pub budget: u32,
     pub progress: u64,
     pub env_steps: u32,
+    /// the broker model stays silent; the scenario pushes inbound bytes itself
+    pub manual: bool,
+    pub keep_tx: bool,
 }
 
 pub struct Watchdog(pub &'static str);
@@ -216,6 +221,9 @@ impl Shared {
                 self.log(|| format!("  io c{} write {}/{} {}", c, n, buf.len(), mr::hex(&buf[..n])));
                 self.conns[c].bytes_out += n as u64;
                 self.progress += n as u64;
+                if self.keep_tx {
+                    self.conns[c].tx_log.extend_from_slice(&buf[..n]);
+                }
                 let pkts = self.oracle.write_accepted(c, buf, n);
                 self.deliver_to_broker(c, pkts);
                 Poll::Ready(Ok(n))
@@ -555,7 +563,7 @@ impl Shared {
                     EmitAndAdvance(Emit, u64),
                 }
                 let mut opts: Vec<(E, bool)> = Vec::new();
-                let enabled = self.broker.enabled();
+                let enabled = if self.manual { Vec::new() } else { self.broker.enabled() };
                 let now = clock::now();
                 let wake = clock::wake();
                 if self.draining {
@@ -747,6 +755,28 @@ impl embedded_io_async::Write for VirtualIo {
     }
 }
 
+/// Poll `fut` to completion, letting the environment act at every `Pending`.
+/// `None` = the application dropped the future (cancellation).
+pub fn drive_fut<F: Future>(sh: &Rc<RefCell<Shared>>, fut: F, conn: Option<usize>, cancel_ok: bool) -> Option<F::Output> {
+    let mut fut = std::pin::pin!(fut);
+    let waker = noop_waker();
+    let mut cx = Context::from_waker(&waker);
+    sh.borrow_mut().cancel_ok = cancel_ok;
+    loop {
+        clock::clear_wake();
+        sh.borrow_mut().pending = Pend::None;
+        match fut.as_mut().poll(&mut cx) {
+            Poll::Ready(v) => return Some(v),
+            Poll::Pending => {
+                let go = sh.borrow_mut().env_step(conn);
+                if !go {
+                    return None;
+                }
+            }
+        }
+    }
+}
+
 fn noop_waker() -> Waker {
     fn clone(_: *const ()) -> RawWaker {
         RawWaker::new(std::ptr::null(), &VTABLE)
@@ -826,23 +856,7 @@ impl<'v> World<'v> {
 
     /// Poll `fut` to completion, letting the environment act at every `Pending`.
     fn drive<F: Future>(&self, fut: F, conn: Option<usize>, cancel_ok: bool) -> Option<F::Output> {
-        let mut fut = std::pin::pin!(fut);
-        let waker = noop_waker();
-        let mut cx = Context::from_waker(&waker);
-        self.sh.borrow_mut().cancel_ok = cancel_ok;
-        loop {
-            clock::clear_wake();
-            self.sh.borrow_mut().pending = Pend::None;
-            match fut.as_mut().poll(&mut cx) {
-                Poll::Ready(v) => return Some(v),
-                Poll::Pending => {
-                    let go = self.sh.borrow_mut().env_step(conn);
-                    if !go {
-                        return None;
-                    }
-                }
-            }
-        }
+        drive_fut(&self.sh, fut, conn, cancel_ok)
     }
 
     fn choose(&self, kind: u8, n: usize) -> usize {
@@ -850,6 +864,16 @@ impl<'v> World<'v> {
             return 0;
         }
         self.sh.borrow_mut().ch.choose(kind, n, 0)
+    }
+
+    /// Packet identifiers of requests still waiting for their final acknowledgement.
+    fn live_ids(&self) -> Vec<u16> {
+        let sh = self.sh.borrow();
+        let epoch = sh.oracle.epoch;
+        let mut v: Vec<u16> = sh.oracle.reqs.iter().filter(|r| r.live(epoch)).filter_map(|r| r.pid).collect();
+        v.sort();
+        v.dedup();
+        v
     }
 
     fn ops_left(&self) -> usize {
@@ -1168,6 +1192,9 @@ impl<'v> World<'v> {
                     if is_req && self.reqs_done >= self.cfg.max_reqs {
                         continue;
                     }
+                    if *op == OpK::Age && self.live_ids().is_empty() {
+                        continue;
+                    }
                     menu.push(*op);
                 }
             }
@@ -1353,7 +1380,12 @@ impl<'v> World<'v> {
                 self.sh.borrow_mut().oracle.op_begin("disconnect", None);
                 match self.drive(conn.disconnect(), Some(id), true) {
                     None => {
-                        self.sh.borrow_mut().oracle.conns[id].disc_cancelled = true;
+                        // only a DISCONNECT of which the transport has accepted something matters
+                        let mut sh = self.sh.borrow_mut();
+                        let m = &mut sh.oracle.conns[id];
+                        if m.disconnect_done || (m.cur_off > 0 && m.cur.as_ref().is_some_and(|p| p[0] == 0xE0)) {
+                            m.disc_cancelled = true;
+                        }
                         Res::Cancelled
                     }
                     Some(Ok(())) => Res::Ok,
@@ -1368,12 +1400,27 @@ impl<'v> World<'v> {
                 self.sh.borrow_mut().oracle.op_begin("sleep", None);
                 Res::Ok
             }
+            OpK::Age => {
+                let ids = self.live_ids();
+                let target = ids[if ids.len() > 1 { self.choose(K_ARG, ids.len()) } else { 0 }];
+                let from = conn.session().verif_runtime().next_packet_id;
+                let steps = (target as u32 + 65535 - from as u32) % 65535;
+                self.log(|| {
+                    format!(
+                        "app: {} locally failing requests later the identifier counter has gone from {} round to {} (still in flight)",
+                        steps, from, target
+                    )
+                });
+                conn.verif_session_mut().verif_set_next_packet_id(target);
+                self.sh.borrow_mut().oracle.op_begin("age", None);
+                Res::Ok
+            }
             OpK::DropConn | OpK::Forget | OpK::IntoInner => unreachable!(),
         };
         self.log(|| format!("api: {} -> {:?}", op.name(), res));
         self.sh.borrow_mut().oracle.op_end(res.rejected(), res == Res::Cancelled);
         self.note_outcome((op, res));
-        if op != OpK::Sleep {
+        if op != OpK::Sleep && op != OpK::Age {
             self.after_op_c11(conn, id, op, res, before);
         }
     }
@@ -1657,6 +1704,8 @@ pub fn run_once(
         budget: cfg.dev,
         progress: 0,
         env_steps: 0,
+        manual: false,
+        keep_tx: false,
     }));
     let mut world = World {
         sh: sh.clone(),
